@@ -151,7 +151,16 @@ class C08Mixin(object):
 
     def ev_container(self, tbl, refs, how):
         atoms = [self.atom(tbl, r) for r in refs]
-        box = {"l": atoms, "d": {a: i for i, a in enumerate(atoms)}, "t": tuple(atoms[:2])}
+        import numpy as np
+        box = {"l": atoms, "d": {a: i for i, a in enumerate(atoms)}, "t": tuple(atoms[:2]),
+               "v": {i: a for i, a in enumerate(atoms)}, "s": frozenset(atoms)}
+        arr = np.empty(len(atoms), dtype=object)
+        arr[:] = atoms
+        box["np"] = arr
+        try:
+            box["f"] = self.pt.formula({a: 1.0 for a in atoms})
+        except Exception:  # noqa: BLE001
+            box["f"] = None
         if how == "deepcopy":
             out = copy.deepcopy(box)
         else:
@@ -159,6 +168,11 @@ class C08Mixin(object):
         same = all(x is y for x, y in zip(out["l"], atoms)) and len(out["l"]) == len(atoms)
         same = same and all(k is a for k, a in zip(out["d"], box["d"])) and len(out["d"]) == len(box["d"])
         same = same and all(x is y for x, y in zip(out["t"], box["t"]))
+        same = same and all(out["v"][i] is a for i, a in enumerate(atoms))
+        same = same and {id(x) for x in out["s"]} == {id(x) for x in box["s"]}
+        same = same and all(x is y for x, y in zip(out["np"].tolist(), atoms))
+        if box["f"] is not None:
+            same = same and {id(x) for x in out["f"].atoms} == {id(x) for x in box["f"].atoms}
         # atoms are used as dictionary keys everywhere: distinct atoms (an ion and its atom, an
         # isotope and its element, the same atom of two tables) must stay distinct keys
         rel = list(atoms)
